@@ -270,6 +270,20 @@ def _zk_read_local(func, text):
     return found
 
 
+
+def _watcher(svc):
+    """The method of the service that sets the wait: a DataWatch on the node
+    another session owns - by role, whatever it is called."""
+    func = svc.methods.get('_watch')
+    if func is not None:
+        return func
+    for cand in svc.methods.values():
+        if any(isinstance(n, ast.Attribute) and n.attr == 'DataWatch'
+               for n in ast.walk(cand.raw)):
+            return cand
+    return None
+
+
 def check(ctx):
     index = ctx.index
     if ctx.tier in ('quick', 'thorough'):   # whole-package clause, cheap enough for every run
@@ -421,7 +435,13 @@ def check(ctx):
                    construct='other-owner branch: no write')
 
             def waits(node):
-                return any(K.is_meth(c, '_watch', 'retry_request')
+                wname = _watcher(svc).name if _watcher(svc) else '_watch'
+                if node.ast is not None and isinstance(
+                        node.ast, ast.FunctionDef) and any(
+                            'DataWatch' in N.txt(d)
+                            for d in node.ast.decorator_list):
+                    return True     # the watcher spliced in by the view
+                return any(K.is_meth(c, wname, 'retry_request')
                            for c in C.node_calls(node))
             path = None
             if not waits(edge.dst):
@@ -482,7 +502,7 @@ def check(ctx):
            construct='plain result')
     # the wait: the watch set on the other owner's node retries the request
     # exactly when that node is gone, and stops watching then
-    wt = svc.methods.get('_watch')
+    wt = _watcher(svc)
     if wt is not None:
         for name, cb in sorted(wt.nested_view().items()):
             cgraph = ctx.cfg(cb)
